@@ -2,6 +2,9 @@
 """Regenerates MANIFEST.json from the table below (kept in one place so it stays valid)."""
 import json, subprocess
 CHECKS = {
+ "C04": dict(level="exploration", tech="before/after store-image oracle on a real node (driver + store + Node validation + vault stub): deliveries over the client, unpaid-update, replication and raw kad-put paths with adversarially mismatched (key, content) pairs; emitted UnverifiedRecord events captured",
+             text="Every delivery under a key its content does not determine must return Err and leave the complete store image byte-identical; correctly keyed deliveries may change only their own key; raw puts are never readable before validation, oversized/unparseable ones are refused.",
+             note="key_of(content) is computed by the harness from the property statement (hashes of bytes / owner / meta+owner); acceptance of correctly keyed deliveries is left to C03/C07.", ref="DESIGN.md §4 C04"),
  "C03": dict(level="exploration", tech="decision-table oracle over a real node (driver + store + real Node validation) driven by the harness event loop, with a local JSON-RPC payment-vault stub (own OS thread) as the contract; store inspected after the simulator has drained all commands, events and disk tasks",
              text="All 64 combinations of the six payment conditions (single-spot faults of otherwise valid proofs of 3/5 quotes) x four paid record kinds x prior content, plus random multi-fault proofs and unpaid uploads; stored-iff-all-hold, Err-iff-not-stored, held chunks unchanged, payment counter moves only on contract confirmation.",
              note="The stub models the contract interface (three best-paid results), not pricing; closeness is falsified by a payee unknown to the node.", ref="DESIGN.md §4 C03"),
